@@ -86,6 +86,8 @@ func optValues() []optValue {
 	}
 	out := []optValue{
 		str("plain"), str(`q"uote`), str(`back\slash`), str("new\nline"), str("tab\there"), str("cr\rx"), str("nul\x00x"), str("bell\x07"), str("é日本"), str("😀 astral"), str("'single'"), str("trail\\"), str("?? trigraph"), str(" lead space"), str("\x7f del   ls"),
+		// a control character directly followed by hex digits / octal digits / letters that could extend an escape
+		str("\x01f"), str("\x07Bell"), str("\x0fA0"), str("\x00" + "0"), str("\x1f1"), str("\x10ab"), str("a\x0bcd"), str("\x7f7f"), str("\\x41"), str("\u0080\u0081"),
 		{"int64 min", func(m protoreflect.Message) { m.Set(fd(m, "i"), protoreflect.ValueOfInt64(math.MinInt64)) }},
 		{"int64 max", func(m protoreflect.Message) { m.Set(fd(m, "i"), protoreflect.ValueOfInt64(math.MaxInt64)) }},
 		{"uint64 max", func(m protoreflect.Message) { m.Set(fd(m, "u"), protoreflect.ValueOfUint64(math.MaxUint64)) }},
